@@ -14,6 +14,8 @@ import (
 	"golang.org/x/tools/go/ssa"
 )
 
+const maxInt = "9223372036854775807"
+
 const (
 	cDeclare = iota
 	cDefine
@@ -216,6 +218,9 @@ func (c *FnCtx) oblige(st *State, kind, anchor string, pos token.Pos, cond, text
 	if len(props) == 0 {
 		props = c.fc.Serves
 	}
+	if trivialTrue(cond) {
+		return nil
+	}
 	o := &Obligation{ID: c.name + "/" + key, Func: c.name, Kind: kind, Anchor: anchor, Props: props,
 		Text: text, cmdN: len(c.cmds), goal: implies(st.reach, cond), fn: c, allow: map[string]bool{}}
 	if pos.IsValid() {
@@ -372,7 +377,7 @@ func (c *FnCtx) freshVal(st *State, t types.Type, hint string) Val {
 		switch {
 		case u.Info()&types.IsString != 0:
 			v := VStr{c.declare(hint+".arr", sAI), "0", c.declare(hint+".len", sInt)}
-			c.assert(le("0", v.Len))
+			c.assert(and(le("0", v.Len), le(v.Len, maxInt)))
 			return v
 		case u.Info()&types.IsBoolean != 0:
 			return VBool{c.declare(hint, sBool)}
@@ -388,7 +393,7 @@ func (c *FnCtx) freshVal(st *State, t types.Type, hint string) Val {
 		}
 	case *types.Slice:
 		v := VSlice{c.declare(hint+".base", sInt), c.declare(hint+".off", sInt), c.declare(hint+".len", sInt), c.declare(hint+".cap", sInt), u.Elem()}
-		c.assert(and(le("0", v.Base), le("0", v.Off), le("0", v.Len), le(v.Len, v.Cap)))
+		c.assert(and(le("0", v.Base), le("0", v.Off), le("0", v.Len), le(v.Len, v.Cap), le(plus(v.Off, v.Cap), maxInt)))
 		c.assert(lt(v.Base, st.nextRef))
 		// nil slice has zero len/cap
 		c.assert(implies(eq(v.Base, "0"), and(eq(v.Cap, "0"), eq(v.Off, "0"))))
@@ -435,11 +440,11 @@ func (c *FnCtx) typeInv(st *State, v Val, t types.Type) string {
 		}
 		if u.Info()&types.IsString != 0 {
 			s := v.(VStr)
-			return and(le("0", s.Len), le("0", s.Off))
+			return and(le("0", s.Len), le("0", s.Off), le(plus(s.Off, s.Len), maxInt))
 		}
 	case *types.Slice:
 		s := v.(VSlice)
-		return and(le("0", s.Base), lt(s.Base, st.nextRef), le("0", s.Off), le("0", s.Len), le(s.Len, s.Cap),
+		return and(le("0", s.Base), lt(s.Base, st.nextRef), le("0", s.Off), le("0", s.Len), le(s.Len, s.Cap), le(plus(s.Off, s.Cap), maxInt),
 			implies(eq(s.Base, "0"), and(eq(s.Cap, "0"), eq(s.Off, "0"))))
 	case *types.Interface:
 		i := v.(VIface)
@@ -922,4 +927,54 @@ func constInt(cst *ssa.Const) (string, bool) {
 		return numBig(cst.Value.ExactString()), true
 	}
 	return "", false
+}
+
+// trivialTrue decides conjunctions of comparisons between literals.
+func trivialTrue(cond string) bool {
+	if cond == "true" {
+		return true
+	}
+	if strings.HasPrefix(cond, "(and ") {
+		// split top-level conjuncts
+		body := cond[5 : len(cond)-1]
+		d := 0
+		start := 0
+		for i := 0; i <= len(body); i++ {
+			if i == len(body) || (body[i] == ' ' && d == 0) {
+				if !trivialTrue(body[start:i]) {
+					return false
+				}
+				start = i + 1
+				continue
+			}
+			if body[i] == '(' {
+				d++
+			} else if body[i] == ')' {
+				d--
+			}
+		}
+		return true
+	}
+	var op string
+	var a, b uint64
+	f := strings.Fields(strings.Trim(cond, "()"))
+	if len(f) != 3 || strings.Count(cond, "(") != 1 {
+		return false
+	}
+	op = f[0]
+	var ok1, ok2 bool
+	a, ok1 = parseLit(f[1])
+	b, ok2 = parseLit(f[2])
+	if !ok1 || !ok2 {
+		return false
+	}
+	switch op {
+	case "<=":
+		return a <= b
+	case "<":
+		return a < b
+	case "=":
+		return a == b
+	}
+	return false
 }
